@@ -71,6 +71,36 @@ def coq_mesh(mesh, frac=12):
     return f'(mkmesh {nodes} {elems} {groups} {sects} {init})'
 
 
+def coq_mats(mesh):
+    return lib.coq_list([f'({lib.coq_str(n)}, [dqf {lib.coq_str(f2dec(e, 8))}; dqf {lib.coq_str(f2dec(nu, 8))}])'
+                         for n, e, nu in mesh.get('materials') or []])
+
+
+def child_mesh(rng, mesh):
+    """the mesh handed to femio: some entries are first set to other values and then
+    restored by editing the live arrays in place (nodes.data[i, j] = v, ...)"""
+    import copy
+    m = copy.deepcopy(mesh)
+    edits = []
+    if rng.random() < 0.5:
+        for _ in range(rng.choice([1, 2])):
+            i, j = rng.randrange(len(m['node_ids'])), rng.randrange(3)
+            edits.append(['node', i, j, mesh['coords'][i][j]])
+            m['coords'][i][j] = float(7.0 if m.get('coord_dtype', 'float64')[:3] == 'int' else 7.25).hex()
+        if m.get('temp') is not None:
+            i = rng.randrange(len(m['temp'][0]))
+            edits.append(['temp', i, 0, mesh['temp'][1][i]])
+            m['temp'][1][i] = float(-1.5).hex()
+        t, ids, conn = m['elems'][rng.randrange(len(m['elems']))]
+        r, c = rng.randrange(len(ids)), rng.randrange(len(conn[0]))
+        other = [x for x in mesh['node_ids'] if x != conn[r][c]]
+        if other:
+            edits.append(['conn', r, c, conn[r][c], t])
+            conn[r][c] = rng.choice(other)
+    m['inplace'] = edits
+    return m
+
+
 def show_read(r, frac=12):
     """femio's read result (c01_impl.dump) -> the canonical lines of Model.show_mesh"""
     out = ['NODES']
@@ -89,6 +119,20 @@ def show_read(r, frac=12):
         out.append('INITIAL ' + k)
         for i, row in zip(ids, rows):
             out.append(','.join([str(i)] + [f2dec(c, frac) for c in row]))
+    mats = r.get('materials') or []
+    if mats:
+        names = mats[0][1]
+        cols = [[f2dec(row[0], 8) for row in rows] for _, _, rows in mats]
+        for k, nm in enumerate(names):
+            out.append('MATERIAL ' + nm)
+            out.append(','.join(c[k] for c in cols))
+    el = r.get('elemental') or []
+    if el:
+        blocks = el[0][1]
+        for bi, (t, ids, rows) in enumerate(blocks):
+            out.append('ASSIGNED ' + t)
+            for k, i in enumerate(ids):
+                out.append(','.join([str(i)] + [f2dec(p[1][bi][2][k][0], 8) for p in el]))
     return out
 
 
@@ -125,11 +169,37 @@ def rand_ids(rng, n, mode):
         ids = list(range(1, n + 1))
     elif mode == 'sparse':
         ids = rng.sample(range(1, 10 * n + 50), n)
+    elif mode in ('almost_sorted', 'reversed', 'offset_dense'):
+        a = 1 if mode != 'offset_dense' else rng.choice([0, 1000, 2 ** 31 - n // 2])
+        ids = list(range(a + (1 if a == 0 else 0), a + (1 if a == 0 else 0) + n))
+        if mode == 'reversed':
+            ids.reverse()
+        elif mode == 'almost_sorted' and n >= 3:
+            k = rng.randrange(n - 1)
+            ids[k], ids[k + 1] = ids[k + 1], ids[k]          # two neighbours swapped
+            if rng.random() < 0.5:
+                ids.insert(rng.randrange(n), ids.pop(rng.randrange(n)))   # one id moved
+        elif n >= 4:
+            mid = ids[1:-1]
+            rng.shuffle(mid)                                   # ends in place, interior shuffled
+            ids = [ids[0]] + mid + [ids[-1]]
+        return ids
+    elif mode == 'near_2p53':
+        ids = rng.sample(range(2 ** 53 - 10 * n - 10, 2 ** 53), n)
     else:
         ids = rng.sample(range(2 ** 31, 2 ** 44), n)
     if mode != 'dense' or rng.random() < 0.7:
         rng.shuffle(ids)
     return ids
+
+
+def f32(x):
+    import struct
+    return struct.unpack('f', struct.pack('f', x))[0]
+
+
+GROUP_NAMES = ['G', 'G1', 'G10', 'g1', 'grp_', 'E', 'Part', 'PART', 'part']
+MAT_NAMES = ['STEEL', 'ALUMINIUM', 'RUBBER', 'steel', 'STEEL2', 'M', 'M1', 'MAT_', 'Cu']
 
 
 def gen_mesh(rng, size='small', types=None, features=None):
@@ -144,15 +214,23 @@ def gen_mesh(rng, size='small', types=None, features=None):
     n_ref = rng.randint(need, need + (4 if size == 'small' else 12))
     n_unref = f.get('n_unref', rng.choice([0, 0, 1, 2, 3]))
     n = n_ref + n_unref
-    nmode = f.get('node_ids', rng.choice(['dense', 'sparse', 'sparse', 'large']))
+    nmode = f.get('node_ids', rng.choice(['dense', 'sparse', 'sparse', 'large', 'almost_sorted',
+                                          'reversed', 'offset_dense', 'near_2p53']))
     node_ids = rand_ids(rng, n, nmode)
     unref = set(rng.sample(node_ids, n_unref))
+    place = rng.choice(['random', 'random', 'first', 'last', 'middle'])
+    if place != 'random' and n_unref and nmode in ('sparse', 'large', 'near_2p53'):
+        keep = [i for i in node_ids if i not in unref]
+        ul = [i for i in node_ids if i in unref]
+        k = {'first': 0, 'last': len(keep), 'middle': len(keep) // 2}[place]
+        node_ids = keep[:k] + ul + keep[k:]
     pool = [i for i in node_ids if i not in unref]
-    emode = f.get('elem_ids', rng.choice(['dense', 'sparse', 'large']))
+    emode = f.get('elem_ids', rng.choice(['dense', 'sparse', 'large', 'almost_sorted', 'reversed',
+                                          'offset_dense']))
     n_el = sum(n_per.values())
     eids = rand_ids(rng, n_el, emode)
     elems = []
-    used = set()
+    used_nodes = set()
     k = 0
     for t in types:
         ids = eids[k:k + n_per[t]]
@@ -160,13 +238,29 @@ def gen_mesh(rng, size='small', types=None, features=None):
         conn = []
         for _ in ids:
             c = rng.sample(pool, ARITY[t])
-            used.update(c)
+            used_nodes.update(c)
             conn.append(c)
         elems.append([t, ids, conn])
     # make sure every node of the pool is referenced (append to last element rows is not
     # possible: arity is fixed) -> nodes of the pool not used become unreferenced too
-    coords = [[float(rand_coord(rng)).hex() for _ in range(3)] for _ in node_ids]
+    # scale / position / dtype of the coordinates
+    cdt = f.get('coord_dtype', rng.choice(['float64'] * 6 + ['float32', 'int64', 'int32']))
+    scale = rng.choice([1.0] * 4 + [1e-4, 1e-3, 0.1, 1e3, 2.0 ** -10, 2.0 ** 7])
+    offset = rng.choice([0.0] * 4 + [1e5, 1.234567e6, 1e7, -3.3e5])
+    raw = [[rand_coord(rng) for _ in range(3)] for _ in node_ids]
+    if cdt in ('int64', 'int32'):
+        vals = [[float(rng.randint(-10 ** 6, 10 ** 6)) for _ in range(3)] for _ in node_ids]
+    else:
+        vals = [[(x * scale + offset) if abs(x) < 1e50 else x for x in row] for row in raw]
+        if cdt == 'float32':
+            vals = [[f32(x) if abs(x) < 3e38 and (x == 0 or abs(x) > 1e-37) else 1.5 for x in row]
+                    for row in vals]
+    coords = [[float(x).hex() for x in row] for row in vals]
     mesh = {'node_ids': node_ids, 'coords': coords, 'elems': elems}
+    if cdt != 'float64':
+        mesh['coord_dtype'] = cdt
+    if max(node_ids) < 2 ** 31 and rng.random() < 0.2:
+        mesh['id_dtype'] = 'int32'
     all_eids = [i for _, ids, _ in elems for i in ids]
     gk = f.get('groups', rng.choice(['none', 'some', 'some', 'with_all', 'singletons']))
     groups = []
@@ -174,7 +268,7 @@ def gen_mesh(rng, size='small', types=None, features=None):
         if gk == 'with_all':
             groups.append(['ALL', sorted(all_eids)])
         for j in range(rng.randint(1, 3)):
-            groups.append([rng.choice(['G', 'grp_', 'E', 'Part']) + str(j + 1),
+            groups.append([rng.choice(GROUP_NAMES) + str(j + 1),
                            rng.sample(all_eids, rng.randint(1, len(all_eids)))])
         if gk == 'with_all' and rng.random() < 0.5:
             rng.shuffle(groups)
@@ -194,6 +288,38 @@ def gen_mesh(rng, size='small', types=None, features=None):
         mesh['sections'] = [[rng.choice(['M', 'MAT_', 'steel']) + str(j + 1),
                              'SHELL' if rng.random() < 0.25 else 'SOLID', g]
                             for j, g in enumerate(chosen)]
+    # materials: a table in its own order (shared, unused materials), sections on disjoint groups
+    mk = f.get('materials', rng.choice(['none', 'none', 'table', 'table']))
+    if mk == 'table' and gk != 'singletons':
+        order = list(all_eids)
+        rng.shuffle(order)
+        nsec = rng.randint(1, min(4, len(order)))
+        cuts = sorted(rng.sample(range(1, len(order)), nsec - 1)) if nsec > 1 else []
+        parts = [order[a:b] for a, b in zip([0] + cuts, cuts + [len(order)])]
+        if rng.random() < 0.4 and len(parts) > 1:
+            parts = parts[:-1]                       # some elements in no section
+        sgroups = [[f'SEC{j}_{rng.choice(["a", "B", "frame"])}', p] for j, p in enumerate(parts)]
+        groups = [g for g in groups if g[0] != 'ALL'] + sgroups
+        if rng.random() < 0.5:
+            rng.shuffle(groups)
+        if gk == 'with_all':
+            groups.insert(rng.randint(0, len(groups)), ['ALL', sorted(all_eids)])
+        mesh['egroups'] = groups
+        names = rng.sample(MAT_NAMES, min(len(MAT_NAMES), nsec + rng.randint(0, 2)))
+        used = [rng.choice(names[:nsec]) if rng.random() < 0.3 else names[j] for j in range(nsec)]
+        if rng.random() < 0.3:                       # as many materials as elements
+            while len(names) < len(all_eids) and len(names) < len(MAT_NAMES):
+                names.append([x for x in MAT_NAMES if x not in names][0])
+        table = list(names)
+        rng.shuffle(table)
+        mesh['materials'] = [[nm, float(rng.choice([210000.0, 7e4, 1 / 3, rng.uniform(1, 1e6)])).hex(),
+                              float(rng.choice([0.3, 0.33, 0.49, rng.uniform(0, 0.5)])).hex()]
+                             for nm in table]
+        secs = [[used[j], 'SHELL' if rng.random() < 0.2 else 'SOLID', sgroups[j][0]]
+                for j in range(len(sgroups))]
+        rng.shuffle(secs)
+        mesh['sections'] = secs
+        sk = 'with_materials'
     tk = f.get('temp', rng.choice(['none', 'node_order', 'permuted', 'permuted']))
     if tk != 'none':
         tid = list(node_ids)
@@ -202,6 +328,7 @@ def gen_mesh(rng, size='small', types=None, features=None):
         mesh['temp'] = [tid, [float(rng.choice([rng.randint(0, 500) / 4.0,
                                                 rng.uniform(-50, 900)])).hex() for _ in tid]]
     mesh['meta'] = {'types': types, 'node_ids': nmode, 'elem_ids': emode,
-                    'n_unref': len(set(node_ids) - used), 'groups': gk, 'sections': sk,
-                    'temp': tk}
+                    'n_unref': len(set(node_ids) - used_nodes), 'groups': gk, 'sections': sk,
+                    'temp': tk, 'coord_dtype': cdt, 'scale': scale, 'offset': offset,
+                    'unref_place': place, 'materials': 'table' if mesh.get('materials') else 'none'}
     return mesh
